@@ -11,7 +11,7 @@ RULE = ("seeded swarm biased to the built-in crops with CCx > 0.96 under generou
         "mulches and partial wetting; per day all nine fluxes are checked for sign, Es <= EsPot, Tr <= TrPot and the off-season "
         "zeros. Non-trivial run: the canopy closed (CC > 0.966) or the field was ponded or mulched on some in-season day; "
         "distinct = distinct configuration signatures")
-PROFILE = {"reactive_p": 0.3, "fixed_evap_layer_p": 0.3, "crops": HIGH_CCX_CROPS * 3 + CROPS, "irr_methods": [1, 1, 2, 4, 5, 0, 3], "bunds": 0.35, "mulch_p": 0.5, "field_p": 0.6,
+PROFILE = {"reactive_p": 0.3, "calibration_param_p": 0.25, "fixed_evap_layer_p": 0.3, "crops": HIGH_CCX_CROPS * 3 + CROPS, "irr_methods": [1, 1, 2, 4, 5, 0, 3], "bunds": 0.35, "mulch_p": 0.5, "field_p": 0.6,
            "events_per_year": 1.0, "sensible_planting_p": 0.9}
 
 
